@@ -80,3 +80,20 @@ func (r *Replica) VerifSyncLimited(ctx context.Context, maxSyncLTXFiles int) err
 func (r *Replica) VerifApplyNewLTXFiles(ctx context.Context, f *os.File, afterTXID ltx.TXID, pageSize uint32) (ltx.TXID, error) {
 	return r.applyNewLTXFiles(ctx, f, afterTXID, pageSize)
 }
+
+// VerifFollowStep runs one iteration of the follow loop's body: poll and apply
+// new LTX files, then persist the new TXID in the sidecar when it advanced.
+// It mirrors the ticker branch of (*Replica).follow.
+func (r *Replica) VerifFollowStep(ctx context.Context, f *os.File, outputPath string, lastTXID ltx.TXID, pageSize uint32) (ltx.TXID, error) {
+	newTXID, err := r.applyNewLTXFiles(ctx, f, lastTXID, pageSize)
+	if err != nil {
+		return lastTXID, err
+	}
+	if newTXID > lastTXID {
+		if err := WriteTXIDFile(outputPath, newTXID); err != nil {
+			return lastTXID, err
+		}
+		lastTXID = newTXID
+	}
+	return lastTXID, nil
+}
